@@ -5,7 +5,9 @@ from fractions import Fraction
 import extract
 from lib import hx
 
-EXTRACT = ['enums']
+EXTRACT = ['enums', 'gen.c20maps', 'gen.c20live']
+EXTRA_PROPS = ['C20Maps', 'C20Live']
+
 RULE = ("player-list histories (length <= 200 actions) over a pool of 5 uuids, every action kind; map "
         "patches on small and 128x128 maps incl. the no-pixel packet; position packets for all 32 flag "
         "combinations on dyadic values (float arithmetic exact); every flag enum found in the library "
